@@ -7,16 +7,18 @@ cd "$wt" || exit 2
 demo=$(git status --porcelain | grep 'zz_.*_test.go' | awk '{print $2}' | head -1)
 [ -z "$demo" ] && demo=$(find . -name 'zz_*demo*_test.go' -not -path './_mutation/*' | head -1)
 pkg=./$(dirname "$demo")
+tags=""
+grep -q '^//go:build integration' "$demo" && tags="-tags integration"   # some demonstrations use a package's integration-tagged helpers
 files=$(git diff --name-only HEAD | grep '\.go$')
 pkgs=$(for f in $files; do echo ./$(dirname $f)/; done | sort -u | tr '\n' ' ')
 echo "demo=$demo pkg=$pkg changed=$files"
 go build ./... || { echo "BUILD FAILED"; exit 1; }
-with=$(go test -vet=off -count=1 -run 'Mutation|ZZ|zz|Demo' $pkg 2>&1 | tail -1)
+with=$(timeout 900 go test $tags -vet=off -count=1 -run 'Mutation|ZZ|zz|Demo' $pkg 2>&1 | tail -1)
 git apply -R _mutation/patch.diff || { echo "cannot reverse patch"; exit 1; }
-without=$(go test -vet=off -count=1 -run 'Mutation|ZZ|zz|Demo' $pkg 2>&1 | tail -1)
+without=$(timeout 900 go test $tags -vet=off -count=1 -run 'Mutation|ZZ|zz|Demo' $pkg 2>&1 | tail -1)
 git apply _mutation/patch.diff
 mv "$demo" /tmp/demo_$id.go.off
-existing=$(go test -vet=off -count=1 $pkgs 2>&1 | grep -E '^(ok|FAIL|---)' | tr '\n' ';')
+existing=$(timeout 1500 go test -vet=off -count=1 $pkgs 2>&1 | grep -E '^(ok|FAIL|---)' | tr '\n' ';')
 mv /tmp/demo_$id.go.off "$demo"
 echo "WITH: $with"; echo "WITHOUT: $without"; echo "EXISTING: $existing"
 mkdir -p /verif/seeded/$id
